@@ -58,6 +58,11 @@ func c11Run(line string) string {
 				}
 			}
 		}
+		// Unmarshal of the CANONICAL bytes (the harness's own encoder, field order from the descriptor):
+		// when Marshal's bytes differ from them, show what the decoder makes of the canonical ones
+		if ref := c11RefEncode(t, v); string(ref) != string(enc) {
+			eq += " canon=" + vhHex(ref) + " -> " + c11Decode(t, append(ref, suffix...))
+		}
 		return vhHex(enc) + " | " + out + eq
 	case "menc", "mdec", "mrt":
 		return c11MapRun(f)
@@ -81,6 +86,9 @@ func c11Run(line string) string {
 
 func c11Gen(r *vhRng) string {
 	if r.Chance(1, 40) { // field order of a struct type
+		if r.Bool() {
+			return "order " + c11GenWideSt(r).String()
+		}
 		for {
 			t := c11GenTy(r, 2, true)
 			if t.kind == "st" {
